@@ -116,6 +116,28 @@ def special_cases(rng, full=False):
             yield ([" %s %s\n" % (mn, t)], {"mn": mn, "form": "regpair", "regs": t.split(","), "kind": "special", "bad": True})
 
 
+def bad_index_cases(mns, rng, full=False):
+    """indexed operands whose parts are each well formed but whose COMBINATION is not an MC6809 addressing mode:
+    ,PCR without an offset, an accumulator offset with PCR or with auto increment/decrement, a register with both
+    a decrement prefix and an increment suffix, a constant offset with auto increment/decrement, more than two
+    signs.  All must be rejected."""
+    regs = ["X", "Y", "U", "S"]
+    ops = [",PCR", "[,PCR]"]
+    for a in ["A", "B", "D"]:
+        ops += ["%s,PCR" % a, "[%s,PCR]" % a]
+        for r in regs:
+            ops += ["%s,%s+" % (a, r), "%s,%s++" % (a, r), "%s,-%s" % (a, r), "%s,--%s" % (a, r), "[%s,%s++]" % (a, r), "[%s,--%s]" % (a, r)]
+    for r in regs:
+        for pre in ["-", "--"]:
+            for suf in ["+", "++"]:
+                ops += [",%s%s%s" % (pre, r, suf), "[,%s%s%s]" % (pre, r, suf)]
+        ops += ["5,%s+" % r, "-3,--%s" % r, "[5,%s++]" % r, "$1234,-%s" % r, ",%s+++" % r, ",---%s" % r, ",+%s" % r, ",%s-" % r,
+                "[,%s+]" % r, "[,-%s]" % r]
+    for mn in mns:
+        for op in (ops if full else rng.sample(ops, 24)):
+            yield ([" %s %s\n" % (mn, op)], {"mn": mn, "form": "badidx", "kind": "grid", "operand": op})
+
+
 # ------------------------------------------------------------------------------------------------
 # random programs (C02 / C03 / C13 / C17 / C18 / C19)
 # ------------------------------------------------------------------------------------------------
